@@ -5,6 +5,7 @@ DRIVERS = {
     "drv_addr": ("Extract_addr.v", "drv_addr.ml", "addr_model"),
     "drv_iauth": ("Extract_iauth.v", "drv_iauth.ml", "iauth_model"),
     "drv_conf": ("Extract_conf.v", "drv_conf.ml", "conf_model"),
+    "drv_mod": ("Extract_mod.v", "drv_mod.ml", "mod_model"),
 }
 
 HOOK_COMMITS = ["9dc863c"]
